@@ -1,4 +1,5 @@
 module github.com/emcfarlane/larking/examples
 
-replace larking.io/ => ../
+go 1.23.5
 
+replace larking.io/ => ../
